@@ -196,6 +196,7 @@ func (c *Cluster) opTick(s *Step) {
 			} else {
 				if err := a.node.SimGossip(p); err != nil {
 					c.stats.probe("gossip-error")
+					c.noteGossipError(a, err)
 				}
 			}
 		}
